@@ -90,7 +90,8 @@ pub struct Encoder {
     /// The number of threads used in multithread mode. (default: `None`)
     ///
     /// If None, the number of workers is set to be identical with the number
-    /// of the logical CPU cores in the running environment.
+    /// of the logical CPU cores in the running environment. The number is
+    /// clamped to [`constant::par::MAX_WORKERS`].
     pub workers: Option<NonZeroUsize>,
     /// Configuration for stereo-coding module.
     pub stereo_coding: StereoCoding,
